@@ -20,7 +20,7 @@ mod zero;
 // ---------------------------------------------------------------------------------------------
 // object-safe view of a keyed cipher instance
 
-pub trait Obj {
+pub trait Obj: Send + Sync {
     fn bl(&self) -> usize;
     /// single block, in place; false = direction not supported by this type
     fn enc(&self, b: &mut [u8]) -> bool;
@@ -89,7 +89,7 @@ pub trait MaybeClone: Sized {
     fn mclone(&self) -> Option<Self>;
 }
 
-impl<T: BlockCipherEncrypt + BlockCipherDecrypt + MaybeDebug + MaybeClone + 'static> Obj for Full<T> {
+impl<T: BlockCipherEncrypt + BlockCipherDecrypt + MaybeDebug + MaybeClone + Send + Sync + 'static> Obj for Full<T> {
     fn bl(&self) -> usize {
         T::block_size()
     }
@@ -118,7 +118,7 @@ impl<T: BlockCipherEncrypt + BlockCipherDecrypt + MaybeDebug + MaybeClone + 'sta
     }
 }
 
-impl<T: BlockCipherEncrypt + MaybeDebug + MaybeClone + 'static> Obj for EncOnly<T> {
+impl<T: BlockCipherEncrypt + MaybeDebug + MaybeClone + Send + Sync + 'static> Obj for EncOnly<T> {
     fn bl(&self) -> usize {
         T::block_size()
     }
@@ -144,7 +144,7 @@ impl<T: BlockCipherEncrypt + MaybeDebug + MaybeClone + 'static> Obj for EncOnly<
     }
 }
 
-impl<T: BlockCipherDecrypt + MaybeDebug + MaybeClone + 'static> Obj for DecOnly<T> {
+impl<T: BlockCipherDecrypt + MaybeDebug + MaybeClone + Send + Sync + 'static> Obj for DecOnly<T> {
     fn bl(&self) -> usize {
         T::block_size()
     }
@@ -431,6 +431,9 @@ fn exec(reg: &[Entry], line: &str) -> String {
     if let Some(r) = special::exec(&t) {
         return r;
     }
+    if t[0] == "hist" {
+        return hist(reg, t.get(1).copied().unwrap_or(""));
+    }
     if t.len() < 2 {
         return "bad-op".into();
     }
@@ -551,6 +554,54 @@ fn exec(reg: &[Entry], line: &str) -> String {
                 if can_ok { "ok" } else { "bad" }
             )
         }
+        // thr <cipher> <nthreads> <keyhex> <hex of n blocks>: a shared instance used by all threads while
+        // every thread also constructs its own instance at the same moment (first use in a fresh
+        // process races the CPU-feature detection).  Output: enc via shared ':' enc via per-thread.
+        "thr" => {
+            let nt: usize = t.get(2).and_then(|s| s.parse().ok()).unwrap_or(2).clamp(1, 64);
+            let (Some(k), Some(data)) = (arg(3), arg(4)) else { return "bad-op".into() };
+            if data.len() % e.bl != 0 {
+                return "bad-op".into();
+            }
+            let bl = e.bl;
+            let new_slice = e.new_slice;
+            let barrier = std::sync::Arc::new(std::sync::Barrier::new(nt + 1));
+            let shared: std::sync::Arc<std::sync::OnceLock<Box<dyn Obj>>> = Default::default();
+            let blocks: Vec<Vec<u8>> = data.chunks(bl).map(|c| c.to_vec()).collect();
+            let mut hs = vec![];
+            for ti in 0..nt {
+                let (barrier, shared, k, blocks) = (barrier.clone(), shared.clone(), k.clone(), blocks.clone());
+                hs.push(std::thread::spawn(move || -> Result<Vec<(usize, Vec<u8>, Vec<u8>)>, ()> {
+                    barrier.wait();
+                    let own = new_slice(&k)?;
+                    let sh = shared.get_or_init(|| new_slice(&k).unwrap());
+                    let mut res = vec![];
+                    for (i, b) in blocks.iter().enumerate() {
+                        if i % nt != ti {
+                            continue;
+                        }
+                        let (mut x, mut y) = (b.clone(), b.clone());
+                        let _ = sh.enc(&mut x) || sh.dec(&mut x);
+                        let _ = own.enc(&mut y) || own.dec(&mut y);
+                        res.push((i, x, y));
+                    }
+                    Ok(res)
+                }));
+            }
+            barrier.wait();
+            let mut all = vec![];
+            for h in hs {
+                match h.join() {
+                    Ok(Ok(r)) => all.extend(r),
+                    Ok(Err(())) => return "err-len".into(),
+                    Err(_) => return "panic:thread".into(),
+                }
+            }
+            all.sort();
+            let a: Vec<u8> = all.iter().flat_map(|x| x.1.clone()).collect();
+            let b: Vec<u8> = all.iter().flat_map(|x| x.2.clone()).collect();
+            format!("{}:{}", hex(&a), hex(&b))
+        }
         "debug" => {
             let Some(k) = arg(2) else { return "bad-op".into() };
             match (e.new_slice)(&k) {
@@ -589,6 +640,61 @@ fn exec(reg: &[Entry], line: &str) -> String {
     }
 }
 
+/// hist <script>: `;`-separated commands over named instances
+///   n:<id>:<Cipher>:<keyhex>   construct        c:<id>:<src>   clone src into id      x:<id>  drop
+///   e:<id>:<blockhex> / d:<id>:<blockhex>        single-block encrypt / decrypt  -> hex
+///   E:<id>:<hex of blocks> / D:<id>:<hex>         multi-block in place            -> hex
+/// output: the results of e/d/E/D joined by ','
+fn hist(reg: &[Entry], script: &str) -> String {
+    use std::collections::HashMap;
+    let mut inst: HashMap<String, Box<dyn Obj>> = HashMap::new();
+    let mut outs: Vec<String> = vec![];
+    for cmd in script.split(';') {
+        let f: Vec<&str> = cmd.split(':').collect();
+        match f[0] {
+            "n" if f.len() == 4 => {
+                let Some(e) = find(reg, f[2]) else { return "unknown-cipher".into() };
+                let Some(k) = unhex(f[3]) else { return "bad-op".into() };
+                match (e.new_slice)(&k) {
+                    Ok(o) => {
+                        inst.insert(f[1].into(), o);
+                    }
+                    Err(_) => return "err-len".into(),
+                }
+            }
+            "c" if f.len() == 3 => {
+                let Some(c) = inst.get(f[2]).and_then(|o| o.try_clone()) else { return "noclone".into() };
+                inst.insert(f[1].into(), c);
+            }
+            "x" if f.len() == 2 => {
+                inst.remove(f[1]);
+            }
+            "e" | "d" | "E" | "D" if f.len() == 3 => {
+                let Some(o) = inst.get(f[1]) else { return "bad-op".into() };
+                let Some(mut b) = unhex(f[2]) else { return "bad-op".into() };
+                if b.is_empty() || b.len() % o.bl() != 0 {
+                    return "bad-op".into();
+                }
+                let okk = match f[0] {
+                    "e" => o.enc(&mut b),
+                    "d" => o.dec(&mut b),
+                    "E" => {
+                        let i = b.clone();
+                        o.many(false, "inplace", &i, &mut b)
+                    }
+                    _ => {
+                        let i = b.clone();
+                        o.many(true, "inplace", &i, &mut b)
+                    }
+                };
+                outs.push(if okk { hex(&b) } else { "unsupported".into() });
+            }
+            _ => return "bad-op".into(),
+        }
+    }
+    outs.join(",")
+}
+
 fn panic_kind(msg: &str) -> &'static str {
     if msg.contains("overflow") {
         "overflow"
@@ -613,6 +719,9 @@ fn main() {
             }
         }
         Some("run") => {
+            if std::env::var_os("VERIF_CPU_OFF").is_some() {
+                cpufeatures::VERIF_FORCE_OFF.store(true, std::sync::atomic::Ordering::SeqCst);
+            }
             std::panic::set_hook(Box::new(|_| {}));
             let stdin = std::io::stdin();
             let stdout = std::io::stdout();
